@@ -15,6 +15,7 @@ from ..engine import cfg as cfgmod, flow
 from ..engine import pattern as P
 from ..engine.facts import dotted, const, src, walk_func, enclosing_stmt, ancestors
 from . import skeletons as sk
+from . import c19  # idents-fields (scan state, parameter binding) is registered for C04 there
 from .common import calls, stmt_nodes, contains
 from .common import raise_names as common_raise_names
 
